@@ -65,7 +65,15 @@ def gen_ovld(seed, index):
         regs.append(m)
     n = rng.randint(4, 24)
     last_obs = None
+    # (not with f.next(): a method inherited by the child still names the parent there)
+    has_fnext = any(m["body"][0] == "fnext" for m in spec["methods"].values())
+    derive_at = rng.randint(1, n) if (rng.random() < 0.3 and not has_fnext) else None
+    child = False
     while len(ops) < n:
+        if derive_at is not None and len(ops) >= derive_at and not child:
+            # a linked child (copy with linkback): every change to f must show up in it too
+            ops.append({"op": "derive_lb"})
+            child = True
         k = weighted(rng, [("obs", 45), ("reg", 22), ("unreg", 15), ("rereg", 10), ("prio", 8),
                            ("call_mut", 12 if (can_mut and kid_pool) else 0)])
         if k == "call_mut":
@@ -92,7 +100,10 @@ def gen_ovld(seed, index):
         if k == "obs":
             c = rng.choice(corpus)
             kind = "resolve" if (rng.random() < 0.12 and not c.get("kw")) else "call"
-            ops.append({"op": "call", "c": dict(c, kind=kind)})
+            o = {"op": "call", "c": dict(c, kind=kind)}
+            if child and rng.random() < 0.5:
+                o["on"] = "g"
+            ops.append(o)
             last_obs = c if rng.random() < 0.7 else None
             continue
         if k == "reg":
@@ -182,8 +193,18 @@ def execute_ovld(scen):
                              "symptom": symptom(out, exp) + ":in-call", "level": "ovld"}
                 break
             continue
+        if op["op"] == "derive_lb":
+            if "g" not in h.w.funcs:
+                g = h.ov.copy(linkback=True)
+                g.rename("g", "g")
+                h.w.funcs["g"] = g
+            trace.append("derive")
+            continue
         if op["op"] == "call":
-            out = h.apply(op)
+            if op.get("on") == "g" and "g" in h.w.funcs:
+                out = h.w.call("g", op["c"])
+            else:
+                out = h.apply(op)
             ref = ref_outcomes(spec, regs, [op["c"]], scen["label"])[0]
             trace.append(out)
             nobs += 1
@@ -203,6 +224,15 @@ def execute_ovld(scen):
                 violation = {"clause": "a valid change of the method set was refused",
                              "op_index": i, "op": op, "result": r, "symptom": "refused", "level": "ovld"}
                 break
+    if violation is None and "g" in h.w.funcs:
+        probes = [h.w.call("g", c) for c in scen["corpus"]]
+        ref = ref_outcomes(spec, regs, scen["corpus"], scen["label"])
+        if probes != ref:
+            i = next(i for i, (a, b) in enumerate(zip(probes, ref)) if a != b)
+            violation = {"clause": "after the history a linked child differs from a freshly built function",
+                         "probe_index": i, "call": scen["corpus"][i], "observed": probes[i],
+                         "expected": ref[i], "regs": regs, "symptom": symptom(probes[i], ref[i]),
+                         "level": "ovld"}
     if violation is None:
         probes = h.probes(scen["corpus"])
         ref = ref_outcomes(spec, regs, scen["corpus"], scen["label"])
